@@ -871,6 +871,42 @@ SHIFT_READS = {  # callee -> (index of the source operand, index of the shift am
 VALUE_PRESERVING = ("add", "sub", "neg", "rotate", "conjugate", "rescale", "align")
 
 
+def ck17(p, res):
+    """plaintext conversions (`to_znx` / `decode_from_znx`): the encoder puts the quantised slots at a torus precision k of the ZNX object and the decoder reads them back at a
+    precision k - the two are the same expression of that object (`other.max_k()`), as are the positions the rest of the crate assumes.  Writer and reader are compared like the
+    item sequences of a serialiser: every `encode_vec_*` and every `decode_vec_*` on a CKKS plaintext object names the same precision, with parameters rendered by name."""
+    import re
+    n = 0
+    sites = []
+    for f in sorted(p.lib_fns(), key=lambda x: x.uid):
+        if not f.uid.startswith("poulpy_ckks::layouts::plaintext") or not f.blocks or f.is_test() or f.kind == "Closure":
+            continue
+        sym = None
+        pn = f.param_names()
+        for bi, t in f.calls():
+            nm = (f.callee_def(t) or {}).get("n", "")
+            m = re.match(r"(encode|decode)_(vec|coeff)_i(64|128)$", nm)
+            if not m or len(t["a"]) < 3:
+                continue
+            sym = sym or Sym(f, Flow(f))
+            k = repr(sym.operand(t["a"][-1]))
+            k = re.sub(r"arg(\d+)", lambda mm: pn.get(int(mm.group(1)), mm.group(0)), k)
+            sites.append((f, m.group(1), k, t["l"]))
+    from collections import Counter
+    cnt = Counter(k for _, _, k, _ in sites)
+    if not cnt:
+        return 0
+    major = cnt.most_common(1)[0][0]
+    for f, role, k, line in sites:
+        n += 1
+        if k != major:
+            res.bad("CK-17", f.pretty, "precision-position:%s" % role, "%s %ss the slots at precision `%s` while the other %d conversion sites of the plaintext module use `%s`: what one side writes at "
+                    "one position the other side (and every operation that aligns a plaintext by its max_k) reads at another" % (f.pretty, role, k, cnt[major], major), site=f.where(line))
+        else:
+            res.ok("CK-17", {"fn": f.pretty, "role": role, "precision": k})
+    return n
+
+
 def ck16(p, res):
     """level alignment (`ckks_align_assign`): of two ciphertexts the one with the larger log_budget is rescaled by the difference, so that both end at the same log_budget.
     Per returning path: the operand X handed to the in-place rescale and the amount k satisfy  log_budget(X) - k == log_budget(Y)  for every valuation of the metadata that
@@ -1213,6 +1249,7 @@ def run(res, tier):
                        "same values, key lookups and checked arithmetic never unwrapped, destination metadata defined on every success return of out-of-place operations (interprocedural "
                        "summary), and equality fast paths consistent with the ordering branches that follow them. Slot values, error magnitudes and the numeric invariant "
                        "log_delta + log_budget <= max_k are not decided.")
+    res.rule("CK-17", "plaintext conversions: encoders and decoders of the plaintext module name the same precision position of the ZNX object")
     res.rule("CK-16", "level alignment: the operand handed to the in-place rescale ends at the other operand's log_budget on every path")
     res.rule("CK-15", "an operation returning a new owned ciphertext built from a ciphertext parameter allocates it with that parameter's rank")
     res.rule("CK-14", "a limb accessor indexed by the counter of enumerate() over another container is bounded by take / zip / a comparison")
@@ -1260,6 +1297,8 @@ def run(res, tier):
         res.floor("CK-15", "operations returning an owned ciphertext built from a parameter", n15, 1)
         n16 = ck16(p, res)
         res.floor("CK-16", "level-alignment operations", n16, 1)
+        n17 = ck17(p, res)
+        res.floor("CK-17", "encode / decode sites of the plaintext module", n17, 4)
         n14 = ck14(p, res)
         res.floor("CK-14", "enumerate-indexed limb accessors", n14, 4)
         n13 = ck13(p, res)
